@@ -4,6 +4,7 @@ import gen as G
 
 THEOREMS = ['combinations_result', 'combs_length_is_binomial', 'combs_r_length_is_multichoose',
             'combs_tuples_are_subsequences', 'combs_all_subsequences', 'combs_no_duplicates', 'combs_r_tuples_have_n', 'combinations_refines_spec']
+PY_HALF = True     # harness/pyhalves.py: the Python-layer functions of this property under pyshim
 RULE = ('value-first random layouts x n in 1..4 (sometimes 0) x replacement x axis; non-trivial = some list at the axis has '
         '>= n elements (at least one tuple is produced); distinct by case text')
 ASSUMPTIONS = ['cartesian/argcartesian are Python-layer functions (not executable here: no pybind11 extension)',
